@@ -114,6 +114,43 @@ def flatten_union_args(types: t.Iterable[T]) -> t.Iterator[T]:
             yield ty
 
 
+def _same_spelling(a: t.Any, b: t.Any) -> bool:
+    """Whether two types are the same including the order of union members (which `==` on unions ignores)."""
+    if a is b:
+        return True
+    (args_a, args_b) = (t.get_args(a), t.get_args(b))
+    if not len(args_a) and not len(args_b):
+        try:
+            return bool(a == b)
+        except Exception:
+            return False
+    return t.get_origin(a) is t.get_origin(b) and len(args_a) == len(args_b) \
+        and all(_same_spelling(x, y) for (x, y) in zip(args_a, args_b))
+
+
+def _subscript(ty: t.Any, base: t.Any, args: t.Tuple[t.Any, ...]) -> t.Any:
+    """
+    ``base[args]``, as a type with exactly these arguments.
+
+    `typing` caches the subscriptions of `Union` and `Annotated` by *equality* of the arguments, and unions
+    are equal whatever the order of their members: ``Optional[List[Union[float, int]]]`` may come back as the
+    ``Optional[List[Union[int, float]]]`` made earlier, anywhere in the program. The order matters to us.
+    """
+    if hasattr(ty, '__metadata__') and hasattr(ty, 'copy_with') \
+            and all(new is old for (new, old) in zip(args[1:], t.get_args(ty)[1:])):
+        # `Annotated`, same annotations: a copy around the new inner type (not cached)
+        return ty.copy_with((args[0],))
+    result = base[args]
+    if len(t.get_args(result)) == len(args) and not all(_same_spelling(x, y) for (x, y) in zip(t.get_args(result), args)):
+        uncached = getattr(type(base).__getitem__, '__wrapped__', None)
+        if uncached is not None:
+            try:
+                return uncached(base, args)
+            except Exception:
+                pass
+    return result
+
+
 def replace_typevars(ty: t.Any,
                      replacements: t.Mapping[t.Union[t.TypeVar, ParamSpec], type]) -> t.Any:
     """
@@ -153,7 +190,7 @@ def replace_typevars(ty: t.Any,
             # single-element union, return as value
             return next(iter(args))
 
-    return base[tuple(args)]  # type: ignore
+    return _subscript(ty, base, tuple(args))
 
 
 def get_type_hints(cls: type) -> t.Dict[str, t.Any]:
